@@ -25,8 +25,13 @@ Everything is decided from the fact base; no libosmium code is run.  Instances a
  K4-tile-ctor-uses-conversions   Tile(zoom, Location): x = mercx_to_tilex(zoom, c.x), y = mercy_to_tiley(zoom, c.y) with
         c = lonlat_to_mercator(location), z = zoom;  Tile(zoom, Coordinates): the same on the argument;  Tile(zoom, tx, ty)
         stores (tx, ty, zoom);  lonlat_to_mercator builds Coordinates{lon_to_x(c.x), lat_to_y(c.y)}.
- K5-tile-valid-predicate   Tile::valid() returns true exactly when z <= 30, x < num_tiles_in_zoom(z) and y < num_tiles_in_zoom(z)
-        (ORDERTYPE over the order types of x, y, z, the tile count and the constant 30).
+ K5-tile-valid-predicate   Tile::valid() returns true exactly when z <= Tile::max_zoom (the enumerator, whatever its value), x < num_tiles_in_zoom(z)
+        and y < num_tiles_in_zoom(z) (ORDERTYPE); the enumerator satisfies 30 <= max_zoom <= bits(num_tiles_in_zoom result) - 1 (zoom 0..30 of
+        the property are legal, 1U << zoom and num_tiles - 1 stay representable).
+ K7-ctor-zoom-assertion-agrees-with-valid   (configurations with assertions) every assertion about the zoom parameter in a Tile constructor is
+        equivalent to zoom <= Tile::max_zoom (ORDERTYPE on the assertion condition).
+ K3 (continued)            deg_to_rad multiplies by exactly PI / 180.0, rad_to_deg by exactly 180.0 / PI (the folded constant compared bit for bit
+        with the quotient evaluated in IEEE double from the library's PI).
 
 Not decided (numerical, left to other technique families -- DESIGN.md section 6): accuracy of the degree-10 rational
 approximation in lat_to_y against the tangent formula, strict monotonicity of the projection and of the tile numbers, the
@@ -725,7 +730,33 @@ def tile_ctors(fb, R):
 
 # ================================================================================================ K5
 
+def _max_zoom(fb):
+    """(value, enum dict) of the enumerator Tile::max_zoom"""
+    for e in fb.enums:
+        if e['q'].startswith(TILE + '::'):
+            for x in e['enumerators']:
+                if x['name'] == 'max_zoom':
+                    return int(x['value']), e
+    return None, None
+
+
 def tile_valid(fb, R):
+    """K5: valid() <=> z <= Tile::max_zoom (the enumerator, whatever its value) && x, y < num_tiles_in_zoom(z); the enumerator itself must
+    keep `1U << zoom` and `num_tiles_in_zoom(zoom) - 1` representable (max_zoom <= bits of the return type - 1) and cover the zoom levels
+    0..30 the property quantifies over."""
+    Z, ze = _max_zoom(fb)
+    if Z is None:
+        R.bad('K5-tile-valid-predicate', TILE + '::max_zoom#shift-range', TILE, 'enumerator Tile::max_zoom not found')
+        return
+    nt = fb.fns(NUM_TILES)
+    bits = 32
+    if nt:
+        from ..c17_util import _SIZES
+        bits = 8 * _SIZES.get(nt[0].retC.replace('const ', ''), 4)
+    R.check(30 <= Z <= bits - 1, 'K5-tile-valid-predicate', TILE + '::max_zoom#shift-range', '%s:%s' % (ze['file'], ze['line']),
+            'Tile::max_zoom = %d: %s' % (Z, 'the property quantifies over zoom 0..30, which valid() / the constructors would reject' if Z < 30 else
+                                       '1U << zoom is not representable in the %d bit result of num_tiles_in_zoom for zoom = %d' % (bits, Z)),
+            detail='30 <= max_zoom = %d <= %d' % (Z, bits - 1))
     q = TILE + '::valid'
     key = q + '#range-predicate'
     fns = fb.fns(q)
@@ -750,18 +781,109 @@ def tile_valid(fb, R):
         bad = None
         n = 0
         try:
-            for w in OT.program_worlds(prog, extra_consts=(30, 31)):
+            for w in OT.program_worlds(prog, extra_consts=(Z, Z + 1)):
                 n += 1
                 got = OT.run(prog, w).as_bool()
-                want = w.le('this.z', 30) and w.lt('this.x', 'ntiles') and w.lt('this.y', 'ntiles')
+                want = w.le('this.z', Z) and w.lt('this.x', 'ntiles') and w.lt('this.y', 'ntiles')
                 if got != want and bad is None:
                     bad = (w, got)
         except OT.Inexact as e:
             R.broken('%s: %s' % (q, e))
             continue
         R.check(bad is None, 'K5-tile-valid-predicate', key, fn.site,
-                'valid() returns %s for %s; required: z <= 30 && x < 2^z && y < 2^z' % (bad[1] if bad else '', bad[0].witness() if bad else ''),
-                detail='decided over %d order types of (x, y, z, num_tiles, 30)' % n)
+                'valid() returns %s for %s; required: z <= max_zoom (%d) && x < 2^z && y < 2^z' % (bad[1] if bad else '', bad[0].witness() if bad else '', Z),
+                detail='decided over %d order types of (x, y, z, num_tiles, max_zoom = %d)' % (n, Z))
+
+
+def ctor_zoom_asserts(fb, R):
+    """K7 (configurations with assertions enabled): every assertion about the zoom parameter in a Tile constructor accepts exactly
+    zoom <= Tile::max_zoom -- the bound valid() uses -- so no legal zoom level aborts and no illegal one passes in one constructor only."""
+    Z, _ze = _max_zoom(fb)
+    if Z is None:
+        return
+    from ..c17_util import is_abort_block
+    for fn in fb.fns(TILE + '::(ctor)'):
+        if not fn.params or 'int' not in fn.params[0]['tC']:
+            continue
+        pz = fn.params[0]['d']
+        shape = 'from-xyz' if len(fn.params) == 3 else ('from-Location' if 'Location' in fn.params[1]['tC'] else
+                                                        ('from-Coordinates' if COORD in fn.params[1]['tC'] else None)) if len(fn.params) >= 2 else None
+        if shape is None:
+            continue
+        for blk in fn.blocks.values():
+            if 'cond' not in blk or len(blk['succs']) != 2 or blk['succs'][1] is None or not is_abort_block(fn, blk['succs'][1]):
+                continue
+            c = blk['cond']
+            vars_ = [fn.nodes[x] for x in fn.subtree(c) if fn.nodes[x].get('k') == 'var' and fn.nodes[x].get('vk') in ('local', 'param')]
+            if not vars_ or any(v.get('d') != pz for v in vars_) or any(fn.nodes[x].get('k') in ('member', 'call') and not fn.nodes[x].get('cv')
+                                                                      for x in fn.subtree(c) if fn.nodes[x].get('k') in ('member', 'call')):
+                continue        # an assertion about something else (location.valid(), x < num_tiles ...)
+            key = '%s::(ctor)#%s/zoom-assertion' % (TILE, shape)
+            try:
+                prog = OT.compile_expression(fb, fn, c)
+            except OT.Inexact as e:
+                R.broken('%s: zoom assertion `%s` is not comparison-only: %s' % (fn.full, fn.expr(c), e))
+                continue
+            name = fn.params[0]['name'] or 'arg0'
+            bad = None
+            for w in OT.program_worlds(prog, extra_ints={name: OT.UINT32}, extra_consts=(Z, Z + 1)):
+                got = OT.run(prog, w).as_bool()
+                if got != w.le(name, Z) and bad is None:
+                    bad = (w, got)
+            R.check(bad is None, 'K7-ctor-zoom-assertion-agrees-with-valid', key, fn.loc(blk['elems'][-1]) if blk['elems'] else fn.site,
+                    'the assertion `%s` %s zoom = %s, but valid() and the other constructors accept exactly zoom <= max_zoom (%d)'
+                    % (fn.expr(c), 'accepts' if bad and bad[1] else 'aborts for', bad[0].witness() if bad else '', Z),
+                    detail='`%s` <=> zoom <= %d' % (fn.expr(c), Z))
+
+
+def conversion_factors(fb, R):
+    """K3 (continued): deg_to_rad multiplies by exactly PI / 180.0 and rad_to_deg by exactly 180.0 / PI, evaluated in IEEE double from the
+    library's PI (the constant the compiler folded is compared bit for bit: one ulp more and deg_to_rad(90) exceeds pi/2, tan() turns
+    negative and lat_to_y_with_tan(+-90) is NaN)."""
+    g = fb.global_const(PI)
+    if g is None or 'cv' not in g:
+        return
+    pi = float(g['cv'])
+    for (name, want, text) in (('deg_to_rad', pi / 180.0, 'PI / 180.0'), ('rad_to_deg', 180.0 / pi, '180.0 / PI')):
+        q = NS + name
+        key = '%s#factor-is-%s' % (q, text.replace(' ', ''))
+        fns = fb.fns(q)
+        if not fns:
+            R.bad('K3-constants-agree', key, q, '%s not found' % q)
+        for fn in fns:
+            msg = None
+            for r in _returns(fn):
+                b = xorigin(fb, Ref(fn, r['sub']))
+                n = b.node if b is not None else None
+                if n is None or n.get('k') != 'binop' or n.get('op') not in ('*', '/'):
+                    R.broken('%s: return value %s is not a product / quotient' % (fn.full, fn.expr(r['sub'])))
+                    msg = 'skip'
+                    continue
+                L, Rr = b.at(n['lhs']), b.at(n['rhs'])
+                if n['op'] == '*' and (_is_param(fb, L, 0) or _is_param(fb, Rr, 0)):
+                    fac = Rr if _is_param(fb, L, 0) else L
+                    fo = origin(fac.fn, fac.nid)
+                    v = float_value(fac.fn, fo, fb) if fo is not None else None
+                    if v is None:
+                        R.broken('%s: factor %s is not a constant expression' % (fn.full, fac.expr()))
+                        msg = 'skip'
+                    elif v != want:
+                        msg = 'multiplies by %r, required %s = %r (differs by %.3g): the angle conversion is off by a rounding step' % (v, text, want, v - want)
+                else:
+                    # (x * PI) / 180.0 resp. (x * 180.0) / PI: the definition itself, written out
+                    l2 = xorigin(fb, L)
+                    n2 = l2.node if l2 is not None else None
+                    ok = n['op'] == '/' and n2 is not None and n2.get('k') == 'binop' and n2.get('op') == '*' and \
+                        (_is_param(fb, l2.at(n2['lhs']), 0) or _is_param(fb, l2.at(n2['rhs']), 0))
+                    if ok:
+                        other = l2.at(n2['rhs']) if _is_param(fb, l2.at(n2['lhs']), 0) else l2.at(n2['lhs'])
+                        a_, b_ = float_value(other.fn, origin(other.fn, other.nid), fb), float_value(Rr.fn, origin(Rr.fn, Rr.nid), fb)
+                        ok = (a_, b_) == ((pi, 180.0) if name == 'deg_to_rad' else (180.0, pi))
+                    if not ok:
+                        R.broken('%s: shape of %s not understood' % (fn.full, fn.expr(r['sub'])))
+                        msg = 'skip'
+            if msg != 'skip':
+                R.check(msg is None, 'K3-constants-agree', key, fn.site, '%s %s' % (name, msg), detail='factor == %s == %r exactly' % (text, want))
 
 
 def all_rules(fb, R):
@@ -770,6 +892,8 @@ def all_rules(fb, R):
     constants(fb, R)
     tile_ctors(fb, R)
     tile_valid(fb, R)
+    ctor_zoom_asserts(fb, R)
+    conversion_factors(fb, R)
 
 
 def run(ctx):
@@ -778,12 +902,16 @@ def run(ctx):
     for cfg in configs:
         fb = ctx.facts(['geom'], cfg)
         all_rules(fb, R)
+    if ctx.tier == 'quick':
+        # the constructor assertions exist only where assertions are compiled in: one such configuration also in the quick tier
+        ctor_zoom_asserts(ctx.facts(['geom'], 'debug14'), R)
     R.expect('K1-tile-result-clamped', 6)          # 2 x (result-clamped, scaled-offset) + num_tiles + tile_extent
     R.expect('K2-clamp-correct', 2)
     R.expect('K6-float-to-int-conversion-range-guarded', 2)
-    R.expect('K3-constants-agree', 4)              # pi, radius, radius*pi == max, max latitude closes the square
+    R.expect('K3-constants-agree', 6)              # pi, radius, radius*pi == max, max latitude closes the square
     R.expect('K4-tile-ctor-uses-conversions', 4)   # 3 constructors + lonlat_to_mercator
-    R.expect('K5-tile-valid-predicate', 1)
+    R.expect('K5-tile-valid-predicate', 2)
+    R.expect('K7-ctor-zoom-assertion-agrees-with-valid', 3)   # the three constructors (configurations with assertions)
 
 
 def _st(fb, R):
@@ -791,4 +919,4 @@ def _st(fb, R):
 
 
 SELFTESTS = [(r, 'c18_tile.cpp', _st) for r in ('K1-tile-result-clamped', 'K2-clamp-correct', 'K6-float-to-int-conversion-range-guarded', 'K3-constants-agree',
-                                                  'K4-tile-ctor-uses-conversions', 'K5-tile-valid-predicate')]
+                                                  'K4-tile-ctor-uses-conversions', 'K5-tile-valid-predicate', 'K7-ctor-zoom-assertion-agrees-with-valid')]
